@@ -269,7 +269,9 @@ pub fn app_layer(scratch: &crate::world::app::Scratch, net: &Net, st: &mut Stats
         {"type": "vehicle_restriction", "vehicle_restriction_input_file": "$DIR/vehicle_restrictions.csv"}
     ]});
     spec.output_plugins = vec![json!({"type": "traversal", "route": "edge_id", "tree": "edge_id", "geometry_input_file": "$DIR/geometries.txt"})];
-    spec.gzip_graph = idx % 2 == 0;
+    spec.gzip_graph = (idx / 40) % 2 == 0;
+    // the optional sizes of the [graph] section: neither, both, only one of them (networks with fewer edges than vertices are among those enumerated)
+    spec.graph_counts = [(false, false), (true, true), (true, false), (false, true)][(idx / 80) % 4];
     // (the same network can come from two families at the same time: the directory name carries a counter)
     static APP_DIR_COUNTER: std::sync::atomic::AtomicU64 = std::sync::atomic::AtomicU64::new(0);
     let dir = scratch.path.join(format!("a{}_{}", net.hash_idx(), APP_DIR_COUNTER.fetch_add(1, std::sync::atomic::Ordering::Relaxed)));
